@@ -25,6 +25,17 @@ func decodeCase(c c07Case) (obs, bad string) {
 	}
 	obs = fmt.Sprintf("%x|%s", got, errStr(err))
 	v, want := ref.B32Classify(c.Text)
+	if err != nil {
+		// a text that is refused stays refused: the same text decoded again must give the same answer
+		var again []byte
+		var err2 error
+		if p := try(func() { again, err2 = otp.DecodeSecret(c.Text) }); p != "" {
+			return "panic:" + p, "second decode panicked: " + p
+		}
+		if err2 == nil {
+			return obs + fmt.Sprintf("|again=%x|<nil>", again), "the text was refused by the first decode and accepted by the second decode of the same text"
+		}
+	}
 	if err == nil && len(got) > 0 {
 		// the returned key is the caller's: wiping it must not change what the next decode returns
 		first := append([]byte(nil), got...)
